@@ -146,6 +146,17 @@ def h_codec(ctx, hrp, ver, plen):
     else:
         ok = False
     ctx.check(ok, 'decode(encode) returns version and program')
+    # history: the canonical string has just been decoded in this process; a mixed-case rendering must still be refused
+    if any(c.isalpha() for c in hrp):
+        k = [i for i, c in enumerate(hrp) if c.isalpha()][0]
+        mixed = ctx.str_concat(hrp[:k] + hrp[k].upper() + hrp[k + 1:] + '1', s[len(hrp) + 1:])
+        if len(hrp) > 1 or True:
+            has_lower = any(c.isalpha() for c in hrp[k + 1:]) or None
+        r = SA.decode(hrp, mixed)
+        allnonalpha = ctx.and_(*[ctx.not_(ctx.and_(ctx.ord1(s[i]) >= 97, ctx.ord1(s[i]) <= 122)) for i in range(len(hrp) + 1, len(s))])
+        # mixed unless the rest of the string happens to contain no lower-case letter at all
+        rest_has_lower = any(c.isalpha() for c in hrp[k + 1:])
+        ctx.check(ctx.or_(r == (None, None), (not rest_has_lower) and allnonalpha), 'mixed-case rendering of a just-decoded address is refused')
     up = SA.decode(hrp, s.upper())
     ok2 = up[0] is not None and up[1] is not None and len(up[1]) == plen and ctx.and_(up[0] == ver, *[up[1][i] == prog[i] for i in range(plen)])
     ctx.check(ok2, 'all-upper-case rendering decodes to the same program')
